@@ -53,7 +53,81 @@ fn structured_text(r: &mut Rng) -> String {
     blocks.join("\n\n")
 }
 
+// ---- multi-byte text whose CHARACTER count and BYTE count fall on different sides of the put path's size thresholds ----
+/// chunking threshold of the put path, in characters of the normalized text (the harness's own copy)
+const CHUNK_MIN_CHARS_REF: usize = 2400;
+#[derive(Clone, Copy, Debug, PartialEq)]
+enum Mix { Two, Three, Four, Mixed }
+fn alphabet(m: Mix) -> Vec<char> {
+    // all stable under NFKC, none whitespace / control / combining
+    let two: Vec<char> = "абвгдежзиклмнопрстуфхцчшщыэюяλμπσω".chars().collect();
+    let three: Vec<char> = "日本語文字漢中国東京大阪山川田水火木金土天地人心".chars().collect();
+    let four: Vec<char> = "𠀀𠀁𠀂𠀃😀😁🚀🌍𝄞".chars().collect();
+    match m { Mix::Two => two, Mix::Three => three, Mix::Four => four,
+              Mix::Mixed => { let mut v = two; v.extend(three); v.extend(four); v.extend("abcdefgh".chars()); v } }
+}
+/// already-normalized text (single spaces, single newlines, no leading/trailing whitespace) of exactly `chars` characters
+fn mb_norm_chars(r: &mut Rng, chars: usize, m: Mix) -> String {
+    let al = alphabet(m);
+    let mut v: Vec<char> = Vec::with_capacity(chars);
+    while v.len() < chars {
+        let l = r.range(1, 7) as usize;
+        for _ in 0..l { v.push(*r.pick(&al)); }
+        match r.below(12) { 0 => v.push(','), 1 => v.push('.'), 2 => v.push('。'), _ => {} }
+        v.push(if r.chance(1, 14) { '\n' } else { ' ' });
+    }
+    v.truncate(chars);
+    if v.last().map_or(false, |c| c.is_whitespace()) { let n = v.len(); v[n - 1] = al[0]; }
+    if chars >= 2 && v[chars - 2].is_whitespace() && chars >= 3 && v[chars - 3].is_whitespace() { v[chars - 2] = al[0]; }
+    v.into_iter().collect()
+}
+/// already-normalized text of exactly `bytes` bytes: multi-byte words first, ASCII letters up to the exact byte count
+fn mb_norm_bytes(r: &mut Rng, bytes: usize, m: Mix) -> String {
+    let al = alphabet(m);
+    let mut s = String::new();
+    let wide = bytes * (r.range(40, 80) as usize) / 100;
+    while s.len() + 8 < wide { let l = r.range(1, 6); for _ in 0..l { s.push(*r.pick(&al)); } s.push(if r.chance(1, 14) { '\n' } else { ' ' }); }
+    while s.len() < bytes { if s.len() + 1 < bytes && r.chance(1, 7) && !s.ends_with(' ') && !s.ends_with('\n') { s.push(' '); } else { s.push((b'a' + r.below(26) as u8) as char); } }
+    s
+}
+/// a text that normalizes to `norm` but is not byte-equal to it: CRLF, tabs, double / ideographic spaces, blank lines,
+/// spaces before a newline, full-width punctuation and letters, leading / trailing whitespace
+fn denormalize(r: &mut Rng, norm: &str) -> String {
+    let mut s = String::new();
+    if r.chance(1, 3) { s.push_str(*r.pick(&[" ", "\n", "\t", "\r\n"])); }
+    for ch in norm.chars() {
+        match ch {
+            ' ' => s.push_str(match r.below(8) { 0 => "  ", 1 => "\t", 2 => " \t", 3 => "\u{3000}", 4 => "\u{A0}", _ => " " }),
+            '\n' => s.push_str(match r.below(6) { 0 => "\r\n", 1 => "\n\n", 2 => " \n", 3 => "\n\n\n", 4 => "\r", _ => "\n" }),
+            ',' if r.chance(1, 2) => s.push('，'),
+            '.' if r.chance(1, 3) => s.push('．'),
+            'a'..='z' if r.chance(1, 9) => s.push(char::from_u32(0xFF41 + (ch as u32 - 'a' as u32)).unwrap()),
+            c => s.push(c),
+        }
+    }
+    s.push_str(*r.pick(&["\n", "\r\n", " ", "\n\n", "\t\n"]));
+    if normalize_text(&s, usize::MAX).map(|n| n.text).as_deref() == Some(norm) { s } else { format!("{}\n", norm) }
+}
+fn mb_payload(r: &mut Rng, chars: Option<usize>, bytes: Option<usize>, m: Mix, denorm: bool) -> (Vec<u8>, String) {
+    let norm = match (chars, bytes) { (Some(c), _) => mb_norm_chars(r, c, m), (_, Some(b)) => mb_norm_bytes(r, b, m), _ => unreachable!() };
+    let text = if denorm { denormalize(r, &norm) } else { norm.clone() };
+    let tag = format!("mb-{:?}-{}{}-{}", m, match (chars, bytes) { (Some(c), _) => format!("{}chars", c), (_, Some(b)) => format!("{}bytes", b), _ => String::new() },
+                      if norm.len() >= CHUNK_MIN_CHARS_REF && norm.chars().count() < CHUNK_MIN_CHARS_REF { "-bytes>=2400>chars" } else { "" }, if denorm { "denorm" } else { "norm" });
+    (text.into_bytes(), tag)
+}
+
 fn gen_payload(r: &mut Rng) -> (Vec<u8>, String) {
+    // multi-byte band: below the chunking threshold in characters, at or above it in bytes (and the thresholds themselves)
+    if r.chance(1, 5) {
+        let m = *r.pick(&[Mix::Two, Mix::Three, Mix::Four, Mix::Mixed]);
+        let d = r.chance(1, 2);
+        return match r.below(4) {
+            0 => { let c = *r.pick(&[1200usize, 1201, 2399, 2400, 2401]); mb_payload(r, Some(c), None, m, d) }
+            1 => { let c = r.range(1201, 2399) as usize; mb_payload(r, Some(c), None, m, d) }
+            2 => { let b = *r.pick(&[2399usize, 2400, 2401]); mb_payload(r, None, Some(b), m, d) }
+            _ => { let c = r.range(600, 1200) as usize; mb_payload(r, Some(c), None, if m == Mix::Two { Mix::Three } else { m }, d) }
+        };
+    }
     match r.below(22) {
         0 => (vec![], "empty".into()),
         1 => { let n = r.range(1, 8) as usize; (r.bytes(n), "tiny-random".into()) }
@@ -76,7 +150,9 @@ fn gen_payload(r: &mut Rng) -> (Vec<u8>, String) {
         19 => { // sentence end followed by an unbroken token longer than a chunk + slack: single-space chunk
             let a = r.range(300, 1150) as usize; let b = r.range(1440, 2600) as usize;
             (format!("{}. {}", exact_text(r, a, false), "x".repeat(b)).into_bytes(), "blank-chunk".into()) }
-        20 => { let n = if r.chance(1, 3) { r.range(20000, 60000) } else { r.range(2400, 9000) } as usize; let mut b = r.bytes(n); b[0] = 0xFF; (b, "big-binary".into()) }
+        20 => { // log growth: control-heavy bytes (no text is extracted from them, so the case stays small); else mid-size random binary
+            if r.chance(1, 3) { let n = r.range(20000, 60000) as usize; let mut b: Vec<u8> = (0..n).map(|_| (r.next() as u8) & 0x1F).collect(); b[0] = 0xFF; (b, "big-binary".into()) }
+            else { let n = r.range(2400, 9000) as usize; let mut b = r.bytes(n); b[0] = 0xFF; (b, "random-binary".into()) } }
         _ => { let n = r.range(1, 200) as usize; let mut b = prose(r, n, true, false).into_bytes(); b.insert(b.len() / 2, 0); (b, "utf8-with-nul".into()) }
     }
 }
@@ -129,6 +205,7 @@ struct Planned {
     first_id: u64,          // frame id the first insert of this op will get
     nframes: u64,
     raw_plan: Option<Vec<String>>,
+    below_but_chunked: bool,
     extracted_plan: Option<Vec<String>>,
     structured: bool,
     pred_parent_no_stext: bool,
@@ -157,8 +234,22 @@ impl Tables {
     fn zstd(&mut self, level: i32, p: &[u8], s: &[u8]) { if !self.z.iter().any(|x| x.0 == level && x.1 == p) { self.z.push((level, p.to_vec(), s.to_vec())); } }
 }
 
-/// byte string as a Coq term; long ones are split so that no string literal exceeds 2 KiB
-fn bh(b: &[u8]) -> T { if b.len() <= 2048 { T::H(b.to_vec()) } else { T::C("app", vec![T::H(b[..2048].to_vec()), bh(&b[2048..])]) } }
+// every byte string longer than 48 bytes is bound once per case (`let bN := hex "..." in`) and referred to by name: payloads
+// occur in the op, the zstd / BLAKE3 / UTF-8 tables and (as search text) in the entry metadata
+thread_local! { static POOL: std::cell::RefCell<(Vec<Vec<u8>>, HashMap<Vec<u8>, usize>)> = std::cell::RefCell::new((vec![], HashMap::new())); }
+fn pool_reset() { POOL.with(|p| { let mut p = p.borrow_mut(); p.0.clear(); p.1.clear(); }); }
+/// literal; long ones are split so that no string literal exceeds 2 KiB
+fn lit(b: &[u8]) -> T { if b.len() <= 2048 { T::H(b.to_vec()) } else { T::C("app", vec![T::H(b[..2048].to_vec()), lit(&b[2048..])]) } }
+fn bh(b: &[u8]) -> T {
+    if b.len() <= 48 { return T::H(b.to_vec()); }
+    let i = POOL.with(|p| { let mut p = p.borrow_mut(); if let Some(i) = p.1.get(b) { *i } else { let i = p.0.len(); p.0.push(b.to_vec()); p.1.insert(b.to_vec(), i); i } });
+    T::C(Box::leak(format!("b{}", i).into_boxed_str()), vec![])
+}
+/// wraps the case input: let b0 := ... in let b1 := ... in id (input)
+fn pool_wrap(input: T) -> T {
+    let prefix = POOL.with(|p| { let p = p.borrow(); let mut s = String::new(); for (i, b) in p.0.iter().enumerate() { s.push_str(&format!("let b{} : bytes := {} in ", i, lit(b).coq())); } s.push_str("id"); s });
+    T::C(Box::leak(prefix.into_boxed_str()), vec![input])
+}
 fn opt_n(v: Option<u64>) -> T { match v { Some(x) => T::some(T::N(x as u128)), None => T::none() } }
 fn opt_h(v: &Option<Vec<u8>>) -> T { match v { Some(x) => T::some(bh(x)), None => T::none() } }
 fn opt_b(v: Option<bool>) -> T { match v { Some(x) => T::some(T::B(x)), None => T::none() } }
@@ -270,6 +361,7 @@ fn observe(d: &mut Driver, reference: &[RefFrame], tb: &mut Tables, viol: &mut O
 }
 
 fn run_history(r: &mut Rng, script: Option<Vec<(Vec<OpSpec>, Option<i32>, EndKind, bool)>>, nbatches: usize) -> Hist {
+    pool_reset();
     let mut d = Driver::new();
     let mut tb = Tables { z: vec![], h: HashMap::new(), u: vec![], s: vec![] };
     let mut reference: Vec<RefFrame> = vec![];
@@ -317,6 +409,14 @@ fn run_history(r: &mut Rng, script: Option<Vec<(Vec<OpSpec>, Option<i32>, EndKin
                     tags.push(format!("payload:{}", tag)); tags.push(format!("opts:{:?}", class)); if sup.is_some() { tags.push("update-with-payload".into()); }
                     let utf8 = std::str::from_utf8(payload).ok();
                     let raw_plan = utf8.and_then(|t| memvid_core::verif_hooks::plan_text_chunks(t)).map(|p| p.2);
+                    // the property's "UTF-8 text below the chunking threshold is stored whole", decided by the harness itself:
+                    // fewer than 2400 CHARACTERS of normalized text => no chunk plan, reads must return exactly P
+                    let norm_chars = utf8.and_then(|t| normalize_text(t, usize::MAX)).map(|n| n.text.chars().count());
+                    let below_but_chunked = utf8.is_some() && norm_chars.map_or(true, |c| c < CHUNK_MIN_CHARS_REF) && raw_plan.is_some();
+                    if below_but_chunked {
+                        viol.get_or_insert(format!("chunked-below-threshold: UTF-8 text of {} bytes whose normalized form has {:?} characters (< {}) got a chunk plan of {} chunks: it must be stored whole", payload.len(), norm_chars, CHUNK_MIN_CHARS_REF, raw_plan.as_ref().map_or(0, |p| p.len())));
+                    }
+                    if utf8.is_some() && payload.len() >= CHUNK_MIN_CHARS_REF && norm_chars.map_or(true, |c| c < CHUNK_MIN_CHARS_REF) { tags.push("band:bytes>=2400>chars".into()); nontrivial = true; }
                     let budgeted = o.instant_index && o.extraction_budget_ms > 0;
                     // update_frame inherits uri / metadata / search text of the existing frame; the extractor still runs when
                     // auto_tag is on or the existing frame has no metadata (need_metadata)
@@ -340,7 +440,7 @@ fn run_history(r: &mut Rng, script: Option<Vec<(Vec<OpSpec>, Option<i32>, EndKin
                     match res {
                         Ok(seq) => {
                             let nframes = 1 + plan.as_ref().map_or(0, |p| p.len() as u64);
-                            planned.push(Planned { seq, spec: spec.clone(), level: lvl, first_id: next_id, nframes, raw_plan, extracted_plan, structured, pred_parent_no_stext: pred_parent, pred_chunk_no_stext: pred_chunks, pred_mime });
+                            planned.push(Planned { seq, spec: spec.clone(), level: lvl, first_id: next_id, nframes, raw_plan, below_but_chunked, extracted_plan, structured, pred_parent_no_stext: pred_parent, pred_chunk_no_stext: pred_chunks, pred_mime });
                             next_id += nframes;
                         }
                         Err(e) => { viol.get_or_insert(format!("put-failed: put of {} bytes ({}) returned {}", payload.len(), tag, e)); break 'outer; }
@@ -352,7 +452,7 @@ fn run_history(r: &mut Rng, script: Option<Vec<(Vec<OpSpec>, Option<i32>, EndKin
                     used.push(*target);
                     let mut o = PutOptions::default(); o.auto_tag = false; o.extract_dates = false; o.extract_triplets = false; o.instant_index = false;
                     match d.mem().update_frame(*target, None, o, None) {
-                        Ok(seq) => { tags.push("update-reusing-payload".into()); planned.push(Planned { seq, spec: spec.clone(), level: lvl, first_id: next_id, nframes: 1, raw_plan: None, extracted_plan: None, structured: false, pred_parent_no_stext: false, pred_chunk_no_stext: vec![], pred_mime: None }); next_id += 1; }
+                        Ok(seq) => { tags.push("update-reusing-payload".into()); planned.push(Planned { seq, spec: spec.clone(), level: lvl, first_id: next_id, nframes: 1, raw_plan: None, below_but_chunked: false, extracted_plan: None, structured: false, pred_parent_no_stext: false, pred_chunk_no_stext: vec![], pred_mime: None }); next_id += 1; }
                         Err(e) => { viol.get_or_insert(format!("update-failed: payload-reusing update of frame {} returned {}", target, e)); break 'outer; }
                     }
                 }
@@ -360,7 +460,7 @@ fn run_history(r: &mut Rng, script: Option<Vec<(Vec<OpSpec>, Option<i32>, EndKin
                     if used.contains(target) { continue; }
                     if !matches!(d.mem().frame_by_id(*target).map(|f| f.status), Ok(FrameStatus::Active)) { continue; }
                     used.push(*target);
-                    if d.mem().delete_frame(*target).is_ok() { tags.push("delete".into()); planned.push(Planned { seq: 0, spec: spec.clone(), level: lvl, first_id: next_id, nframes: 0, raw_plan: None, extracted_plan: None, structured: false, pred_parent_no_stext: false, pred_chunk_no_stext: vec![], pred_mime: None }); }
+                    if d.mem().delete_frame(*target).is_ok() { tags.push("delete".into()); planned.push(Planned { seq: 0, spec: spec.clone(), level: lvl, first_id: next_id, nframes: 0, raw_plan: None, below_but_chunked: false, extracted_plan: None, structured: false, pred_parent_no_stext: false, pred_chunk_no_stext: vec![], pred_mime: None }); }
                 }
             }
         }
@@ -420,7 +520,9 @@ fn run_history(r: &mut Rng, script: Option<Vec<(Vec<OpSpec>, Option<i32>, EndKin
                     };
                     if p.raw_plan.is_some() {
                         ops_t.push(T::Tup(vec![T::N(p.seq as u128), T::C("CPutChunked", vec![T::L(chunk_terms), meta_term(&pm), opt_n(*sup)])]));
-                        new_refs.push(RefFrame { payload: payload.clone(), kind: RefKind::Parent { chunks: plan.clone().unwrap(), structured: p.structured, raw: true }, level: p.level, supersedes: *sup, extracted: false });
+                        // a text the harness expects whole keeps the whole-payload obligations (reads == P) even though the implementation chunked it
+                        if p.below_but_chunked { new_refs.push(RefFrame { payload: payload.clone(), kind: RefKind::Whole, level: p.level, supersedes: *sup, extracted: true }); }
+                        else { new_refs.push(RefFrame { payload: payload.clone(), kind: RefKind::Parent { chunks: plan.clone().unwrap(), structured: p.structured, raw: true }, level: p.level, supersedes: *sup, extracted: false }); }
                         for c in plan.as_ref().unwrap() { new_refs.push(RefFrame { payload: c.as_bytes().to_vec(), kind: RefKind::Chunk { text: c.clone() }, level: 3, supersedes: None, extracted: false }); }
                     } else if p.extracted_plan.is_some() {
                         whole_stored(&mut tb);
@@ -496,7 +598,7 @@ fn run_history(r: &mut Rng, script: Option<Vec<(Vec<OpSpec>, Option<i32>, EndKin
         T::L(tb.s.iter().map(|(n, s)| T::Tup(vec![T::N(*n as u128), T::H(s.clone())])).collect()),
     ]);
     tags.sort(); tags.dedup();
-    Hist { input: T::Tup(vec![T::N(wal_off0 as u128), T::N(wal_size0 as u128), tables, T::L(batches_t)]), output: T::L(outs_t), viol, tags, nontrivial }
+    Hist { input: pool_wrap(T::Tup(vec![T::N(wal_off0 as u128), T::N(wal_size0 as u128), tables, T::L(batches_t)])), output: T::L(outs_t), viol, tags, nontrivial }
 }
 
 fn put(payload: Vec<u8>, class: OptClass, tag: &str) -> OpSpec { OpSpec::Put { payload, class, sup: None, tag: tag.to_string() } }
@@ -520,6 +622,20 @@ pub fn run(seed: u64, n: usize, w: &mut dyn std::io::Write) {
                     (vec![put(vec![0u8; 8], OptClass::AutoOffInstant, "tiny-zero")], None, EndKind::Commit, false)]);
     fixed.push(vec![(vec![put(format!("{}. {}", exact_text(&mut r, 1100, false), "x".repeat(1600)).into_bytes(), OptClass::Default, "blank-chunk")], None, EndKind::Commit, false)]);
     fixed.push(vec![(vec![put({ let mut b = prose(&mut r, 3000, false, false).into_bytes(); b[1500] = 0xFF; b }, OptClass::Default, "non-utf8-long-texty")], None, EndKind::Commit, true)]);
+    // multi-byte text around every size threshold: characters in {1200,1201,2399,2400,2401} with >= 2400 bytes, and bytes in
+    // {2399,2400,2401} with fewer characters; 2-, 3-, 4-byte code points, pure and mixed with ASCII; normalized and not
+    for (m, classes) in [(Mix::Three, [OptClass::Default, OptClass::Plain]), (Mix::Four, [OptClass::Plain, OptClass::Default]), (Mix::Mixed, [OptClass::Default, OptClass::AutoOffInstant])] {
+        let mut b1 = vec![]; let mut b2 = vec![];
+        for (i, c) in [1200usize, 1201, 2399, 2399].iter().enumerate() { let (p, t) = mb_payload(&mut r, Some(*c), None, m, i % 2 == 1); b1.push(put(p, classes[i % 2], &t)); }
+        for (i, c) in [2400usize, 2401].iter().enumerate() { let (p, t) = mb_payload(&mut r, Some(*c), None, m, i % 2 == 0); b2.push(put(p, classes[i % 2], &t)); }
+        fixed.push(vec![(b1, None, EndKind::Commit, false), (b2, None, EndKind::Commit, true)]);
+    }
+    {
+        let mut b1 = vec![]; let mut b2 = vec![];
+        for (i, c) in [2399usize, 2399, 2400, 2401].iter().enumerate() { let (p, t) = mb_payload(&mut r, Some(*c), None, Mix::Two, i % 2 == 1); b1.push(put(p, if i % 2 == 0 { OptClass::Default } else { OptClass::Plain }, &t)); }
+        for (i, b) in [2399usize, 2400, 2401, 2400].iter().enumerate() { let (p, t) = mb_payload(&mut r, None, Some(*b), if i == 3 { Mix::Four } else { Mix::Three }, i % 2 == 1); b2.push(put(p, if i % 2 == 0 { OptClass::Plain } else { OptClass::Default }, &t)); }
+        fixed.push(vec![(b1, None, EndKind::Commit, false), (b2, Some(0), EndKind::CrashReplay, true)]);
+    }
     let nfixed = fixed.len();
     for i in 0..n.max(nfixed) {
         let h = if i < nfixed { let mut h = run_history(&mut r, Some(fixed[i].clone()), 0); h.tags.push("fixed".into()); h } else { let nb = r.range(1, 4) as usize; run_history(&mut r, None, nb) };
